@@ -20,6 +20,38 @@ type WorkCase struct {
 
 var workAlphabet = []string{"a", "b", "a/b", "./a", "a/", "b/../a", "c/d/e", ".", ""}
 
+// roundTripBufWork is read -> dump -> write -> read -> dump -> write for a buf.work.yaml text.
+func roundTripBufWork(text string) rtResult {
+	var res rtResult
+	f1, err := bufconfig.ReadBufWorkYAMLFile(strings.NewReader(text), "buf.work.yaml")
+	if err != nil {
+		res.rejectWhy = err.Error()
+		return res
+	}
+	res.accepted = true
+	res.dump1 = DumpBufWork(f1)
+	var w1 bytes.Buffer
+	if err := bufconfig.WriteBufWorkYAMLFile(&w1, f1); err != nil {
+		res.writeErr = err
+		return res
+	}
+	res.written1 = w1.String()
+	f2, err := bufconfig.ReadBufWorkYAMLFile(strings.NewReader(res.written1), "buf.work.yaml")
+	if err != nil {
+		res.rereadErr = err
+		return res
+	}
+	res.diffs = DiffTrees(res.dump1, DumpBufWork(f2))
+	var w2 bytes.Buffer
+	if err := bufconfig.WriteBufWorkYAMLFile(&w2, f2); err != nil {
+		res.write2Err = err
+		return res
+	}
+	res.written2 = w2.String()
+	res.idempotent = res.written2 == res.written1
+	return res
+}
+
 func runBufWork(r *evid.Run) {
 	var cases []WorkCase
 	for _, seq := range enum.Sequences(len(workAlphabet), 0, 3) {
@@ -42,17 +74,14 @@ func runBufWork(r *evid.Run) {
 	r.ParallelFor(len(cases), 0, func(i int) {
 		c := cases[i]
 		r.Eval(1)
-		var res rtResult
-		f1, err := bufconfig.ReadBufWorkYAMLFile(strings.NewReader(c.Text), "buf.work.yaml")
-		if err != nil {
+		res := roundTripBufWork(c.Text)
+		if !res.accepted {
 			cov.add("rejected_by_reader", 1)
-			rejects.add(shorten(err.Error()), 1)
+			rejects.add(shorten(res.rejectWhy), 1)
 			return
 		}
-		res.accepted = true
-		res.dump1 = DumpBufWork(f1)
 		cov.add("accepted", 1)
-		dirs := f1.DirPaths()
+		dirs := res.dump1["directories"].([]any)
 		if len(dirs) > 1 {
 			cov.add("multiple_directories", 1)
 		}
@@ -60,24 +89,6 @@ func runBufWork(r *evid.Run) {
 			cov.add("input_not_normalised_or_unsorted", 1)
 		}
 		r.Distinct("bufwork|" + c.Text)
-		var w1 bytes.Buffer
-		if err := bufconfig.WriteBufWorkYAMLFile(&w1, f1); err != nil {
-			res.writeErr = err
-		} else {
-			res.written1 = w1.String()
-			if f2, err := bufconfig.ReadBufWorkYAMLFile(strings.NewReader(res.written1), "buf.work.yaml"); err != nil {
-				res.rereadErr = err
-			} else {
-				res.diffs = DiffTrees(res.dump1, DumpBufWork(f2))
-				var w2 bytes.Buffer
-				if err := bufconfig.WriteBufWorkYAMLFile(&w2, f2); err != nil {
-					res.write2Err = err
-				} else {
-					res.written2 = w2.String()
-					res.idempotent = res.written2 == res.written1
-				}
-			}
-		}
 		if len(res.diffs) == 0 && res.writeErr == nil && res.rereadErr == nil {
 			cov.add("round_trip_equal", 1)
 		}
